@@ -1,5 +1,7 @@
 pub mod common;
 pub mod c01;
+pub mod c03;
+pub mod c04;
 pub mod c06;
 pub mod c13;
 pub mod c14;
@@ -8,5 +10,5 @@ pub mod repair;
 use crate::runner::Prop;
 
 pub fn all() -> Vec<&'static dyn Prop> {
-    vec![&c01::C01, &repair::C02, &repair::C05, &c06::C06, &c13::C13, &c14::C14]
+    vec![&c01::C01, &c03::C03, &c04::C04, &repair::C02, &repair::C05, &c06::C06, &c13::C13, &c14::C14]
 }
